@@ -23,6 +23,8 @@ func init() {
 			"(share-boundary) a partition evicts iff its key count (bytes in use) is at least the limit divided — plain integer division — by the number of owned partitions (truth table {keep, evict, evict}), and only when it is non-empty; " +
 			"(divisor-guard) both divisions are dominated by the owned-partition-count == 0 exit; " +
 			"(access-refresh) every Table read that returns an entry (Get, get) and every write (Put, UpdateTTL) stores the last-access stamp unconditionally, on every success path; " +
+			"(defaults-applied-last) in dmapConfig.load no assignment to lruSamples is reachable after its default was filled in (an override applied afterwards would wipe the default and LRU would find nothing to evict); " +
+			"(eviction-scans-every-partition) the background expiry scan draws its partition from 0..PartitionCount-1, so every owned partition is eventually visited; " +
 			"(idle-boundary) a key is idle iff now >= lastAccess + MaxIdleDuration, evaluated through the shared expiry test, and never when MaxIdleDuration is 0; " +
 			"(evicted-via-delete) eviction removes keys through deleteOnCluster (so backups follow).",
 		Run: func(r *core.Run) {
@@ -30,6 +32,8 @@ func init() {
 			c10ShareBoundary(r)
 			c10AccessRefresh(r)
 			c10Idle(r)
+			c10DefaultsAppliedLast(r)
+			c10EvictionScansEveryPartition(r)
 		},
 	})
 }
